@@ -80,6 +80,14 @@ def user_ctx(rng, length=14, **kw):
     # plain-int factor (the factor between them is int / int), and one more
     # term-defined unit
     refcls = [n for n, c in w.classes.items() if c["ref"] is not None and c["quantum"] is None]
+    qcls = [n for n, c in w.classes.items() if c["ref"] is not None and c["quantum"] is not None]
+    if qcls and rng.random() < .7:
+        # two units of a quantised type below half its quantum, one above
+        c = rng.choice(qcls)
+        for og in (Fraction(1, 10), Fraction(1, 4), Fraction(5, 2)):
+            st = g.term_unit(only_cls=c, offgrid=og)
+            if st is not None:
+                steps.append(st)
     if refcls and rng.random() < .8:
         cls = rng.choice(refcls)
         for kind in ("i", "i", None):
